@@ -1,14 +1,88 @@
 (* C15 — lemmas. *)
+From Coq Require Import Permutation.
 From V Require Import Lib.Base Gen.Consts Model.C15.
 Import C15.
 Open Scope N_scope.
 
+(* ------------------------------------------------------------ small facts *)
 Lemma pick_min_nil ds : pick_min ds = None -> ds = [].
 Proof.
   destruct ds as [|d r]; [reflexivity|]. cbn.
   destruct (pick_min r) as [[e r']|]; [destruct (dend e <? dend d)|]; discriminate.
 Qed.
 
+Lemma pick_min_spec ds : forall d r, pick_min ds = Some (d, r) ->
+  Permutation ds (d :: r) /\ (forall e, In e r -> dend d <= dend e).
+Proof.
+  induction ds as [|x ds IH]; intros d r H; [discriminate|]. cbn in H.
+  destruct (pick_min ds) as [[e r']|] eqn:PM.
+  - destruct (IH e r' eq_refl) as [P M].
+    destruct (dend e <? dend x) eqn:L; inversion H; subst; clear H.
+    + split.
+      * eapply perm_trans; [apply perm_skip, P|]. apply perm_swap.
+      * intros y [<-|Hy]; [apply N.ltb_lt in L; lia|]. auto.
+    + split; [reflexivity|]. apply N.ltb_ge in L.
+      intros y Hy. apply (Permutation_in _ P) in Hy. destruct Hy as [<-|Hy]; [assumption|].
+      specialize (M _ Hy). lia.
+  - apply pick_min_nil in PM. subst. inversion H; subst. split; [reflexivity|]. intros e [].
+Qed.
+
+Lemma find_fam_spec w q : forall a r, find_fam w q = Some (a, r) ->
+  Permutation q (a :: r) /\ v6 a = w.
+Proof.
+  induction q as [|x q IH]; intros a r H; [discriminate|]. cbn in H.
+  destruct (Bool.eqb (v6 x) w) eqn:E.
+  - inversion H; subst. split; [reflexivity|]. now apply eqb_prop.
+  - destruct (find_fam w q) as [[b r']|]; [|discriminate]. inversion H; subst.
+    destruct (IH a r' eq_refl) as [P F]. split; [|assumption].
+    eapply perm_trans; [apply perm_skip, P|]. apply perm_swap.
+Qed.
+
+Lemma find_fam_none w q : find_fam w q = None -> forall b, In b q -> v6 b <> w.
+Proof.
+  induction q as [|x q IH]; intros H b Hb; [destruct Hb|]. cbn in H.
+  destruct (Bool.eqb (v6 x) w) eqn:E; [discriminate|].
+  destruct (find_fam w q) as [[c r']|]; [discriminate|].
+  destruct Hb as [<-|Hb]; [|now apply IH].
+  intros F. rewrite F, eqb_reflx in E. discriminate.
+Qed.
+
+Lemma pop_family_spec q w a r w' : pop_family q w = Some (a, r, w') ->
+  Permutation q (a :: r) /\ w' = negb (v6 a) /\
+  ((exists b, In b q /\ v6 b = w) -> v6 a = w).
+Proof.
+  unfold pop_family. destruct q as [|a0 q0]; [discriminate|].
+  destruct (find_fam w (a0 :: q0)) as [[b r']|] eqn:F; intros H; inversion H; subst; clear H.
+  - destruct (find_fam_spec _ _ _ _ F) as [P V]. auto.
+  - split; [reflexivity|]. split; [reflexivity|].
+    intros (b & Hb & Vb). exfalso. exact (find_fam_none _ _ F b Hb Vb).
+Qed.
+
+Lemma pop_family_some q w : q <> [] -> exists x, pop_family q w = Some x.
+Proof.
+  destruct q as [|a q]; [congruence|]. intros _. unfold pop_family.
+  destruct (find_fam w (a :: q)) as [[b r]|]; eauto.
+Qed.
+
+Lemma dial_res_indep a s : snd (dial_end a s) = snd (dial_end a 0).
+Proof. unfold dial_end. destruct (oc a) as [l|l|]; try destruct (l <=? DT); reflexivity. Qed.
+
+Lemma dial_end_ge a s : s <= fst (dial_end a s).
+Proof. unfold dial_end. destruct (oc a) as [l|l|]; try destruct (l <=? DT); cbn; lia. Qed.
+
+Lemma dres_succ a t : dres (mkDial a t) = None <-> succ a = true.
+Proof.
+  unfold dres, succ. cbn. rewrite (dial_res_indep a t).
+  destruct (snd (dial_end a 0)); split; congruence.
+Qed.
+
+Lemma addr_eqb_refl a : addr_eqb a a = true.
+Proof.
+  unfold addr_eqb. rewrite eqb_reflx, N.eqb_refl. cbn.
+  destruct (oc a); cbn; auto using N.eqb_refl.
+Qed.
+
+(* ------------------------------------------------------------ the select, by cases *)
 Ltac break_if := match goal with |- context[if ?c then _ else _] => destruct c end.
 
 Lemma on_stream_not_stuck p s t s' : on_stream p s t <> Stuck s'.
@@ -30,13 +104,42 @@ Proof.
       discriminate). auto.
 Qed.
 
-Lemma pop_family_some q w : q <> [] -> exists x, pop_family q w = Some x.
+Definition stime (sc : scenario) (s : st) : N :=
+  match rest s with (t, _) :: _ => t | [] => tend sc end.
+
+(* Which arm fires, with what the choice says about the times of the other arms. *)
+Inductive sel_case (sc : scenario) (s : st) : stepres -> Prop :=
+| SelDial d r t :
+    pick_min (dials s) = Some (d, r) -> t = N.max (now s) (dend d) ->
+    (fin s = false -> t <= N.max (now s) (stime sc s)) ->
+    sel_case sc s (on_dial s t d r)
+| SelStream t :
+    fin s = false -> t = N.max (now s) (stime sc s) ->
+    (forall d r, pick_min (dials s) = Some (d, r) -> t < N.max (now s) (dend d)) ->
+    (forall dl, timer s = Some dl -> t <= N.max (now s) dl) ->
+    sel_case sc s (on_stream (pref sc) s t)
+| SelTimer dl t :
+    timer s = Some dl -> t = N.max (now s) dl ->
+    (forall d r, pick_min (dials s) = Some (d, r) -> t < N.max (now s) (dend d)) ->
+    (fin s = false -> t < N.max (now s) (stime sc s)) ->
+    sel_case sc s (on_timer s t)
+| SelStuck : dials s = [] -> fin s = true -> timer s = None -> sel_case sc s (Stuck s).
+
+Lemma select_cases sc s : sel_case sc s (select sc s).
 Proof.
-  destruct q as [|a q]; [congruence|]. intros _. unfold pop_family.
-  destruct (find_fam w (a :: q)) as [[b r]|]; eauto.
+  unfold select. cbv zeta. fold (stime sc s).
+  destruct (pick_min (dials s)) as [[d r]|] eqn:PM;
+  destruct (fin s) eqn:F; destruct (timer s) as [dl|] eqn:T; cbn [le_opt andb];
+  repeat match goal with |- context[?a <=? ?b] => destruct (N.leb_spec a b) end; cbn [andb];
+  try (eapply SelDial; eauto; intros; try congruence; lia);
+  try (eapply SelStream; eauto; intros; try congruence;
+       repeat match goal with H : Some _ = Some _ |- _ => inversion H; subst; clear H end; lia);
+  try (eapply SelTimer; eauto; intros; try congruence;
+       repeat match goal with H : Some _ = Some _ |- _ => inversion H; subst; clear H end; lia).
+  apply pick_min_nil in PM. now apply SelStuck.
 Qed.
 
-(* after the loop top: the timer is set or the queue is empty *)
+(* ------------------------------------------------------------ no deadlock *)
 Lemma top_post s : timer (top s) <> None \/ queue (top s) = [].
 Proof.
   unfold top. destruct (timer s) eqn:T.
@@ -50,10 +153,854 @@ Qed.
 Lemma no_deadlock sc s s' : step sc s <> Stuck s'.
 Proof.
   unfold step. destruct (exhausted s) eqn:E; [discriminate|].
-  intros H. apply select_stuck in H as (D & F & T).
+  intros H0. apply select_stuck in H0 as (D & F & T).
   unfold top in *. destruct (timer s) eqn:Ts; [congruence|].
   destruct (queue s) as [|a q] eqn:Q.
   - cbn in *. unfold exhausted in E. rewrite Q, D, F in E. discriminate.
   - destruct (pop_family_some (a :: q) (want6 s)) as [[[b r] w] P]; [discriminate|].
-    rewrite P in *. cbn in *. discriminate.
+    rewrite P in *. cbn in *. destruct (dials s); discriminate.
 Qed.
+
+(* ------------------------------------------------------------ the invariant *)
+Definition addrs_of (s : stream) : list addr := map snd (stream_addrs s).
+
+Lemma stream_addrs_app x y : stream_addrs (x ++ y) = stream_addrs x ++ stream_addrs y.
+Proof.
+  induction x as [|[t [a|c]] x IH]; cbn; [reflexivity| |assumption]. now rewrite IH.
+Qed.
+Lemma addrs_of_app x y : addrs_of (x ++ y) = addrs_of x ++ addrs_of y.
+Proof. unfold addrs_of. now rewrite stream_addrs_app, map_app. Qed.
+
+Record Inv (sc : scenario) (s : st) : Prop := mkInv {
+  I_split : exists pre, items sc = pre ++ rest s /\
+                        Permutation (addrs_of pre) (map snd (log s) ++ queue s);
+  I_fin : fin s = true -> rest s = [] /\ tend sc <= now s;
+  I_dlog : forall d, In d (dials s) -> In (dstart d, daddr d) (log s);
+  I_log : forall t a, In (t, a) (log s) ->
+            In (mkDial a t) (dials s) \/ (succ a = false /\ dend_at t a <= now s);
+  I_fut : forall d, In d (dials s) -> now s <= dend d
+}.
+
+Lemma inv_init sc : Inv sc (init sc).
+Proof.
+  constructor; cbn.
+  - exists []. split; [reflexivity|]. constructor.
+  - discriminate.
+  - intros d [].
+  - intros t a [].
+  - intros d [].
+Qed.
+
+Lemma inv_top sc s : Inv sc s -> Inv sc (top s).
+Proof.
+  intros [(pre & Hs & Hp) Hf Hd Hl Hfu]. unfold top.
+  destruct (timer s); [now constructor; eauto|].
+  destruct (pop_family (queue s) (want6 s)) as [[[a q] w]|] eqn:P; [|now constructor; eauto].
+  apply pop_family_spec in P as (Pq & _ & _).
+  constructor; cbn.
+  - exists pre. split; [assumption|].
+    eapply perm_trans; [exact Hp|].
+    eapply perm_trans; [apply Permutation_app_head, Pq|].
+    symmetry. apply Permutation_middle.
+  - assumption.
+  - intros d Hd'. apply in_app_or in Hd' as [Hd'|[<-|[]]]; [right; auto|left; reflexivity].
+  - intros t b [E|Hb].
+    + inversion E; subst. left. apply in_or_app. right. left. reflexivity.
+    + destruct (Hl _ _ Hb) as [H|H]; [left; apply in_or_app; auto|right; assumption].
+  - intros d Hd'. apply in_app_or in Hd' as [Hd'|[<-|[]]]; [auto|].
+    unfold dend. cbn. apply dial_end_ge.
+Qed.
+
+(* time never goes back *)
+Lemma select_next_mono sc s s' : select sc s = Next s' -> now s <= now s'.
+Proof.
+  destruct (select_cases sc s) as [d r t PM -> _|t F -> _ _|dl t T -> _ _|_ _ _]; intros H.
+  - unfold on_dial in H. destruct (dres d); inversion H; subst; cbn; lia.
+  - unfold on_stream in H. destruct (rest s) as [|[t0 [a|c]] r0]; inversion H; subst; cbn; lia.
+  - inversion H; subst; cbn; lia.
+  - discriminate.
+Qed.
+
+Lemma inv_select_next sc s s' : Inv sc s -> select sc s = Next s' -> Inv sc s'.
+Proof.
+  intros I H. pose proof I as [(pre & Hs & Hp) Hf Hd Hl Hfu].
+  destruct (select_cases sc s) as [d r t PM Et Hts|t F Et Hd1 Ht1|dl t T Et Hd1 Hs1|]; [| | |discriminate].
+  - (* an attempt fails *)
+    unfold on_dial in H. destruct (dres d) as [c|] eqn:R; [|discriminate]. inversion H; subst s'; clear H.
+    destruct (pick_min_spec _ _ _ PM) as [Pm Mn].
+    assert (Hdd : In d (dials s)) by (apply (Permutation_in _ (Permutation_sym Pm)); left; reflexivity).
+    assert (Et' : t = dend d) by (specialize (Hfu _ Hdd); lia).
+    constructor; cbn.
+    + eauto.
+    + intros Fi. destruct (Hf Fi). split; [assumption|lia].
+    + intros e He. apply Hd. apply (Permutation_in _ (Permutation_sym Pm)). right. assumption.
+    + intros t0 a Ha. destruct (Hl _ _ Ha) as [Hi|[S L]].
+      * apply (Permutation_in _ Pm) in Hi. destruct Hi as [Hi|Hi]; [subst d|left; assumption].
+        right. split.
+        -- destruct (succ a) eqn:Sa; [|reflexivity]. apply (proj2 (dres_succ a t0)) in Sa. congruence.
+        -- rewrite Et'. unfold dend, dend_at. cbn. lia.
+      * right. split; [assumption|lia].
+    + intros e He. rewrite Et'. auto.
+  - (* a stream item / the end of the stream *)
+    assert (Hnow : forall e, In e (dials s) -> t <= dend e).
+    { intros e He. destruct (pick_min (dials s)) as [[d r]|] eqn:PM.
+      - destruct (pick_min_spec _ _ _ PM) as [Pm Mn]. specialize (Hd1 _ _ eq_refl).
+        assert (In d (dials s)) by (apply (Permutation_in _ (Permutation_sym Pm)); left; reflexivity).
+        pose proof (Hfu _ H0). apply (Permutation_in _ Pm) in He. destruct He as [<-|He]; [lia|].
+        specialize (Mn _ He). lia.
+      - apply pick_min_nil in PM. rewrite PM in He. destruct He. }
+    unfold on_stream in H. unfold stime in Et.
+    destruct (rest s) as [|[t0 [a|c]] r0] eqn:Rs; inversion H; subst s'; clear H.
+    + constructor; cbn; eauto.
+      * intros _. split; [reflexivity|lia].
+      * intros t0 a Ha. destruct (Hl _ _ Ha) as [Hi|[S L]]; [left; assumption|right; split; [assumption|lia]].
+    + constructor; cbn; eauto.
+      * exists (pre ++ [(t0, IAddr a)]). split.
+        -- rewrite <- app_assoc. cbn. rewrite Hs. reflexivity.
+        -- rewrite addrs_of_app. cbn. rewrite app_assoc. apply Permutation_app_tail. assumption.
+      * intros Fi. congruence.
+      * intros t1 b Ha. destruct (Hl _ _ Ha) as [Hi|[S L]]; [left; assumption|right; split; [assumption|lia]].
+    + constructor; cbn; eauto.
+      * exists (pre ++ [(t0, IErr c)]). split.
+        -- rewrite <- app_assoc. cbn. rewrite Hs. reflexivity.
+        -- rewrite addrs_of_app. cbn. rewrite app_nil_r. assumption.
+      * intros Fi. congruence.
+      * intros t1 b Ha. destruct (Hl _ _ Ha) as [Hi|[S L]]; [left; assumption|right; split; [assumption|lia]].
+  - (* the timer fires *)
+    assert (Hnow : forall e, In e (dials s) -> t <= dend e).
+    { intros e He. destruct (pick_min (dials s)) as [[d r]|] eqn:PM.
+      - destruct (pick_min_spec _ _ _ PM) as [Pm Mn]. specialize (Hd1 _ _ eq_refl).
+        assert (In d (dials s)) by (apply (Permutation_in _ (Permutation_sym Pm)); left; reflexivity).
+        pose proof (Hfu _ H0). apply (Permutation_in _ Pm) in He. destruct He as [<-|He]; [lia|].
+        specialize (Mn _ He). lia.
+      - apply pick_min_nil in PM. rewrite PM in He. destruct He. }
+    inversion H; subst s'; clear H. constructor; cbn; eauto.
+    + intros Fi. destruct (Hf Fi). split; [assumption|lia].
+    + intros t1 b Ha. destruct (Hl _ _ Ha) as [Hi|[S L]]; [left; assumption|right; split; [assumption|lia]].
+Qed.
+
+Lemma inv_step_next sc s s' : Inv sc s -> step sc s = Next s' -> Inv sc s'.
+Proof.
+  unfold step. destruct (exhausted s); [discriminate|]. intros I H.
+  eapply inv_select_next; [apply inv_top; eassumption|eassumption].
+Qed.
+
+(* A run ends in a terminal step from a state satisfying the invariant. *)
+Lemma run_end sc : forall f s r s', Inv sc s -> run f sc s = Some (r, s') ->
+  exists s0, Inv sc s0 /\ step sc s0 = Done r s'.
+Proof.
+  induction f as [|f IH]; intros s r s' I H; [discriminate|]. cbn in H.
+  destruct (step sc s) as [r0 s0|s0|s0] eqn:S.
+  - inversion H; subst. eauto.
+  - eapply IH; [|eassumption]. eapply inv_step_next; eassumption.
+  - exfalso. exact (no_deadlock _ _ _ S).
+Qed.
+
+(* ------------------------------------------------------------ termination *)
+Definition b2n (b : bool) : nat := if b then 1%nat else 0%nat.
+Definition is_some {A} (o : option A) : bool := match o with Some _ => true | None => false end.
+Definition is_nil {A} (l : list A) : bool := match l with [] => true | _ => false end.
+
+(* Potential: every loop iteration that continues decreases it. *)
+Definition phi (s : st) : nat :=
+  (3 * length (rest s) + b2n (negb (fin s)) + 2 * length (queue s) + length (dials s)
+   + b2n (is_some (timer s)) + b2n (negb (started s) && is_nil (queue s)))%nat.
+
+Lemma phi_top s : (phi (top s) <= phi s)%nat.
+Proof.
+  unfold top. destruct (timer s) eqn:T; [lia|].
+  destruct (pop_family (queue s) (want6 s)) as [[[a q] w]|] eqn:P; [|lia].
+  apply pop_family_spec in P as (Pq & _ & _). apply Permutation_length in Pq.
+  unfold phi. cbn. rewrite T, Pq, app_length. cbn.
+  destruct (queue s); [discriminate|]. cbn. rewrite andb_false_r. cbn. lia.
+Qed.
+
+Lemma phi_select sc s s' : (timer s <> None \/ queue s = []) ->
+  select sc s = Next s' -> (phi s' < phi s)%nat.
+Proof.
+  intros TP H.
+  destruct (select_cases sc s) as [d r t PM Et Hts|t F Et Hd1 Ht1|dl t T Et Hd1 Hs1|]; [| | |discriminate].
+  - unfold on_dial in H. destruct (dres d); [|discriminate]. inversion H; subst s'; clear H.
+    destruct (pick_min_spec _ _ _ PM) as [Pm _]. apply Permutation_length in Pm.
+    unfold phi. cbn. rewrite Pm. cbn.
+    destruct r; cbn; destruct (timer s); cbn; lia.
+  - unfold on_stream in H.
+    destruct (rest s) as [|[t0 [a|c]] r0] eqn:Rs; inversion H; subst s'; clear H; unfold phi; cbn; rewrite ?Rs, ?F; cbn.
+    + destruct (started s); cbn; destruct (timer s); cbn; lia.
+    + rewrite app_length. cbn.
+      assert (E : is_nil (queue s ++ [a]) = false) by (destruct (queue s); reflexivity).
+      rewrite E, andb_false_r. cbn.
+      destruct (started s) eqn:St; cbn.
+      * destruct (timer s); cbn; lia.
+      * destruct (Bool.eqb (pref sc) (v6 a)); cbn.
+        -- destruct (timer s); cbn; lia.
+        -- destruct (timer s) eqn:T; cbn; [lia|].
+           destruct TP as [TP|TP]; [congruence|]. rewrite TP. cbn. lia.
+    + lia.
+  - inversion H; subst s'; clear H. unfold phi. cbn. rewrite T. cbn. lia.
+Qed.
+
+Lemma phi_step sc s s' : step sc s = Next s' -> (phi s' < phi s)%nat.
+Proof.
+  unfold step. destruct (exhausted s); [discriminate|]. intros H.
+  apply phi_select in H; [|apply top_post]. pose proof (phi_top s). lia.
+Qed.
+
+Lemma run_terminates sc : forall f s, (phi s < f)%nat -> exists x, run f sc s = Some x.
+Proof.
+  induction f as [|f IH]; intros s L; [lia|]. cbn.
+  destruct (step sc s) as [r0 s0|s0|s0] eqn:S; eauto.
+  apply IH. apply phi_step in S. lia.
+Qed.
+
+Lemma fuel_suffices sc : exists r s, run (fuel_of sc) sc (init sc) = Some (r, s).
+Proof.
+  destruct (run_terminates sc (fuel_of sc) (init sc)) as [[r s] H]; [|eauto].
+  unfold phi, fuel_of, init. cbn. lia.
+Qed.
+
+Lemma run_sc_end sc r s' : run_sc sc = (r, s') ->
+  exists s0, Inv sc s0 /\ step sc s0 = Done r s'.
+Proof.
+  unfold run_sc. destruct (fuel_suffices sc) as (r0 & s0 & H). rewrite H.
+  intros E; inversion E; subst. eapply run_end; [apply inv_init|eassumption].
+Qed.
+
+(* ------------------------------------------------------------ the terminal step *)
+Lemma step_done sc s r s' : Inv sc s -> step sc s = Done r s' ->
+  (exhausted s = true /\ s' = s /\ exists c, r = Err c) \/
+  (exists d rs, Inv sc (top s) /\ pick_min (dials (top s)) = Some (d, rs) /\ dres d = None /\
+     r = Ok (daddr d) /\ now s' = dend d /\ log s' = log (top s) /\ In d (dials (top s))).
+Proof.
+  intros I. unfold step. destruct (exhausted s) eqn:E.
+  - intros H; inversion H; subst. left. eauto.
+  - intros H. right. apply inv_top in I.
+    destruct (select_cases sc (top s)) as [d r0 t PM Et Hts|t F Et Hd1 Ht1|dl t T Et Hd1 Hs1|]; [| | |discriminate].
+    + unfold on_dial in H. destruct (dres d) eqn:R; [discriminate|]. inversion H; subst; clear H.
+      destruct (pick_min_spec _ _ _ PM) as [Pm _].
+      assert (Hdd : In d (dials (top s))) by (apply (Permutation_in _ (Permutation_sym Pm)); left; reflexivity).
+      pose proof (I_fut _ _ I _ Hdd).
+      exists d, r0. cbn. split; [assumption|]. split; [assumption|]. split; [assumption|].
+      split; [reflexivity|]. split; [lia|]. split; [reflexivity|assumption].
+    + unfold on_stream in H. destruct (rest (top s)) as [|[t0 [a|c]] r0]; discriminate.
+    + discriminate.
+Qed.
+
+(* ------------------------------------------------------------ core theorems *)
+(* Failure: every resolved address was attempted (exactly once). *)
+Lemma all_attempted_or_won sc c s :
+  run_sc sc = (Err c, s) -> Permutation (addrs_of (items sc)) (map snd (log s)).
+Proof.
+  intros H. apply run_sc_end in H as (s0 & I & S).
+  apply step_done in S as [(E & -> & _)|(d & rs & _ & _ & _ & R & _)]; [|discriminate|assumption].
+  destruct I as [(pre & Hs & Hp) Hf _ _ _].
+  unfold exhausted in E. apply andb_prop in E as [E E3]. apply andb_prop in E as [E1 E2].
+  destruct (Hf E1) as [Rn _]. rewrite Rn, app_nil_r in Hs. subst pre.
+  destruct (queue s0); [|discriminate]. now rewrite app_nil_r in Hp.
+Qed.
+
+(* Failure: resolution had finished and every attempt had failed by then. *)
+Lemma fails_only_when_exhausted sc c s :
+  run_sc sc = (Err c, s) ->
+  fin s = true /\ rest s = [] /\ tend sc <= now s /\ queue s = [] /\ dials s = [] /\
+  forall t a, In (t, a) (log s) -> succ a = false /\ dend_at t a <= now s.
+Proof.
+  intros H. apply run_sc_end in H as (s0 & I & S).
+  apply step_done in S as [(E & -> & _)|(d & rs & _ & _ & _ & R & _)]; [|discriminate|assumption].
+  destruct I as [_ Hf _ Hl _].
+  unfold exhausted in E. apply andb_prop in E as [E E3]. apply andb_prop in E as [E1 E2].
+  destruct (Hf E1) as [Rn Tn].
+  destruct (queue s0); [|discriminate]. destruct (dials s0) eqn:D; [|discriminate].
+  repeat split; auto.
+  - destruct (Hl _ _ H) as [[]|[? ?]]. assumption.
+  - destruct (Hl _ _ H) as [[]|[? ?]]. assumption.
+Qed.
+
+(* Success: the returned address is a logged attempt that connected at the time of return,
+   and no logged attempt connects earlier. *)
+Lemma returns_first_success sc a s :
+  run_sc sc = (Ok a, s) ->
+  exists t, In (t, a) (log s) /\ succ a = true /\ dend_at t a = now s /\
+    forall t' a', In (t', a') (log s) -> succ a' = true -> now s <= dend_at t' a'.
+Proof.
+  intros H. apply run_sc_end in H as (s0 & I & S).
+  apply step_done in S as [(_ & _ & c & E)|(d & rs & I1 & PM & R & E & Nw & Lg & Hd)]; [discriminate| |assumption].
+  inversion E; subst a; clear E. rewrite Lg, Nw.
+  destruct (pick_min_spec _ _ _ PM) as [Pm Mn].
+  exists (dstart d). split; [apply (I_dlog _ _ I1 _ Hd)|]. split.
+  - destruct d as [a t]. cbn. apply (proj1 (dres_succ a t)). assumption.
+  - split; [reflexivity|]. intros t' a' Hin Sa.
+    destruct (I_log _ _ I1 _ _ Hin) as [Hi|[Sf _]]; [|congruence].
+    apply (Permutation_in _ Pm) in Hi. destruct Hi as [->|Hi]; [unfold dend, dend_at; cbn; lia|].
+    specialize (Mn _ Hi). unfold dend in Mn at 2. cbn in Mn. unfold dend_at. assumption.
+Qed.
+
+Lemma run_sc_not_panic sc s : run_sc sc <> (Panic, s).
+Proof.
+  intros H. apply run_sc_end in H as (s0 & I & S).
+  apply step_done in S as [(_ & _ & c & E)|(d & rs & _ & _ & _ & E & _)]; [discriminate|discriminate|assumption].
+Qed.
+
+(* ------------------------------------------------------------ sorted streams *)
+Fixpoint sorted (s : stream) : Prop :=
+  match s with
+  | [] => True
+  | x :: r => (forall y, In y r -> fst x <= fst y) /\ sorted r
+  end.
+
+Lemma sorted_app_r x y : sorted (x ++ y) -> sorted y.
+Proof. induction x as [|a x IH]; cbn; [auto|]. intros [_ H]. auto. Qed.
+
+Definition countf (f : bool) (l : list addr) : nat :=
+  length (filter (fun a => Bool.eqb (v6 a) f) l).
+
+Lemma countf_app f x y : countf f (x ++ y) = (countf f x + countf f y)%nat.
+Proof. unfold countf. now rewrite filter_app, app_length. Qed.
+
+Lemma countf_perm f l l' : Permutation l l' -> countf f l = countf f l'.
+Proof.
+  unfold countf. induction 1; cbn; auto.
+  - destruct (Bool.eqb (v6 x) f); cbn; congruence.
+  - destruct (Bool.eqb (v6 x) f), (Bool.eqb (v6 y) f); cbn; congruence.
+  - congruence.
+Qed.
+
+Lemma countf_pos f l : (0 < countf f l)%nat -> exists b, In b l /\ v6 b = f.
+Proof.
+  unfold countf. induction l as [|a l IH]; cbn; [lia|].
+  destruct (Bool.eqb (v6 a) f) eqn:E.
+  - intros _. exists a. split; [left; reflexivity|now apply eqb_prop].
+  - intros H. destruct (IH H) as (b & Hb & Vb). exists b. auto.
+Qed.
+
+Lemma cnt_fam_countf f l : cnt_fam f l = countf f (map snd l).
+Proof.
+  unfold cnt_fam, countf. induction l as [|x l IH]; cbn; [reflexivity|].
+  destruct (Bool.eqb (v6 (snd x)) f); cbn; congruence.
+Qed.
+
+Lemma cnt_before_le f t l : (cnt_before f t l <= cnt_fam f l)%nat.
+Proof.
+  unfold cnt_before, cnt_fam. induction l as [|x l IH]; cbn; [lia|].
+  destruct (Bool.eqb (v6 (snd x)) f); cbn; [destruct (fst x <? t); cbn; lia|lia].
+Qed.
+
+Lemma cnt_before_app f t x y : cnt_before f t (x ++ y) = (cnt_before f t x + cnt_before f t y)%nat.
+Proof. unfold cnt_before. now rewrite filter_app, app_length. Qed.
+
+Lemma stream_addrs_in x r : In x (stream_addrs r) -> exists it, In (fst x, it) r.
+Proof.
+  induction r as [|[t [a|c]] r IH]; cbn; [intros []| |].
+  - intros [<-|H]; [exists (IAddr a); left; reflexivity|]. destruct (IH H) as [it Hi]. eauto.
+  - intros H. destruct (IH H) as [it Hi]. eauto.
+Qed.
+
+Lemma cnt_before_future f t r : (forall x, In x r -> t <= fst x) -> cnt_before f t (stream_addrs r) = 0%nat.
+Proof.
+  intros H. unfold cnt_before.
+  assert (E : forall l, (forall x, In x l -> t <= fst x) ->
+            filter (fun x : N * addr => Bool.eqb (v6 (snd x)) f && (fst x <? t)) l = []).
+  { induction l as [|x l IH]; cbn; [reflexivity|]. intros Hl.
+    assert (fst x <? t = false) by (apply N.ltb_ge; apply Hl; left; reflexivity).
+    rewrite H0, andb_false_r. apply IH. intros y Hy. apply Hl. right. assumption. }
+  rewrite E; [reflexivity|]. intros x Hx. destruct (stream_addrs_in _ _ Hx) as [it Hi].
+  apply (H _ Hi).
+Qed.
+
+(* An address family counted as untried has an address in the queue. *)
+Lemma untried_queue sc s f : Inv sc s -> (forall x, In x (rest s) -> now s <= fst x) ->
+  untried (stream_addrs (items sc)) (log s) (now s) f = true ->
+  exists b, In b (queue s) /\ v6 b = f.
+Proof.
+  intros [(pre & Hs & Hp) _ _ _ _] Hr U. unfold untried in U. apply Nat.ltb_lt in U.
+  rewrite Hs, stream_addrs_app, cnt_before_app, (cnt_before_future _ _ _ Hr) in U.
+  pose proof (cnt_before_le f (now s) (stream_addrs pre)) as L.
+  rewrite cnt_fam_countf in L. fold (addrs_of pre) in L.
+  rewrite (countf_perm f _ _ Hp), countf_app in L. rewrite cnt_fam_countf in U.
+  apply countf_pos. lia.
+Qed.
+
+(* the invariant under a sorted stream *)
+Record InvS (sc : scenario) (s : st) : Prop := mkInvS {
+  S_fut : forall x, In x (rest s) -> now s <= fst x;
+  S_sorted : sorted (rest s);
+  S_want : match log s with y :: _ => want6 s = negb (v6 (snd y)) | [] => want6 s = pref sc end;
+  S_alt : alt_ok (stream_addrs (items sc)) (log s) = true
+}.
+
+Lemma invS_init sc : sorted (items sc) -> InvS sc (init sc).
+Proof.
+  intros H. constructor; cbn; auto.
+  intros x Hx. lia.
+Qed.
+
+Lemma alt_ok_cons2 ads x y l : alt_ok ads (x :: y :: l) =
+  (if untried ads (y :: l) (fst x) true && untried ads (y :: l) (fst x) false
+   then negb (Bool.eqb (v6 (snd x)) (v6 (snd y))) else true) && alt_ok ads (y :: l).
+Proof. reflexivity. Qed.
+
+Lemma invS_top sc s : Inv sc s -> InvS sc s -> InvS sc (top s).
+Proof.
+  intros I [Hf Hso Hw Ha]. unfold top.
+  destruct (timer s); [now constructor|].
+  destruct (pop_family (queue s) (want6 s)) as [[[a q] w]|] eqn:P; [|now constructor].
+  apply pop_family_spec in P as (Pq & -> & Pw).
+  constructor; try (cbn; auto; fail).
+  cbn [log]. destruct (log s) as [|y l] eqn:L; [reflexivity|].
+  rewrite alt_ok_cons2, Ha, andb_true_r. cbn [fst snd].
+  destruct (untried _ _ _ true) eqn:U1; [|reflexivity].
+  destruct (untried _ _ _ false) eqn:U2; [|reflexivity]. cbn.
+  rewrite <- L in U1, U2.
+  assert (Hb : exists b, In b (queue s) /\ v6 b = want6 s).
+  { destruct (want6 s); eapply untried_queue; eauto. }
+  specialize (Pw Hb). rewrite Pw, Hw. destruct (v6 (snd y)); reflexivity.
+Qed.
+
+Lemma invS_select_next sc s s' : Inv sc s -> InvS sc s -> select sc s = Next s' -> InvS sc s'.
+Proof.
+  intros I [Hf Hso Hw Ha] H. pose proof (I_fin _ _ I) as Hfin.
+  assert (Hst : fin s = false -> forall x, In x (rest s) -> N.max (now s) (stime sc s) <= fst x).
+  { intros _ x Hx. unfold stime. destruct (rest s) as [|[t0 it] r0]; [destruct Hx|].
+    cbn in Hso. destruct Hso as [Hh _]. pose proof (Hf _ (or_introl eq_refl)). cbn in H0.
+    destruct Hx as [<-|Hx]; [cbn; lia|]. specialize (Hh _ Hx). cbn in Hh. lia. }
+  assert (Hfr : fin s = true -> forall x, In x (rest s) -> False).
+  { intros Fi x Hx. destruct (Hfin Fi) as [E _]. rewrite E in Hx. destruct Hx. }
+  destruct (select_cases sc s) as [d r t PM Et Hts|t F Et Hd1 Ht1|dl t T Et Hd1 Hs1|]; [| | |discriminate].
+  - unfold on_dial in H. destruct (dres d); [|discriminate]. inversion H; subst s'; clear H.
+    constructor; cbn; auto.
+    intros x Hx. destruct (fin s) eqn:Fi; [exfalso; eauto|].
+    specialize (Hst eq_refl _ Hx). specialize (Hts eq_refl). lia.
+  - unfold on_stream in H. unfold stime in *.
+    destruct (rest s) as [|[t0 [a|c]] r0] eqn:Rs; inversion H; subst s'; clear H.
+    + constructor; cbn; auto. intros x [].
+    + cbn in Hso. destruct Hso as [Hh Hso]. constructor; cbn; auto.
+      intros x Hx. specialize (Hh _ Hx). pose proof (Hf _ (or_introl eq_refl)). cbn in *. lia.
+    + cbn in Hso. destruct Hso as [Hh Hso]. constructor; cbn; auto.
+      intros x Hx. specialize (Hh _ Hx). pose proof (Hf _ (or_introl eq_refl)). cbn in *. lia.
+  - inversion H; subst s'; clear H. constructor; cbn; auto.
+    intros x Hx. destruct (fin s) eqn:Fi; [exfalso; eauto|].
+    specialize (Hst eq_refl _ Hx). specialize (Hs1 eq_refl). lia.
+Qed.
+
+Definition InvB (sc : scenario) (s : st) : Prop := Inv sc s /\ InvS sc s.
+
+Lemma invB_step_next sc s s' : InvB sc s -> step sc s = Next s' -> InvB sc s'.
+Proof.
+  intros [I J]. unfold step. destruct (exhausted s); [discriminate|]. intros H. split.
+  - eapply inv_select_next; [apply inv_top; eassumption|eassumption].
+  - eapply invS_select_next; [apply inv_top; eassumption|apply invS_top; eassumption|eassumption].
+Qed.
+
+Lemma runB_end sc : forall f s r s', InvB sc s -> run f sc s = Some (r, s') ->
+  exists s0, InvB sc s0 /\ step sc s0 = Done r s'.
+Proof.
+  induction f as [|f IH]; intros s r s' I H; [discriminate|]. cbn in H.
+  destruct (step sc s) as [r0 s0|s0|s0] eqn:S.
+  - inversion H; subst. eauto.
+  - eapply IH; [|eassumption]. eapply invB_step_next; eassumption.
+  - exfalso. exact (no_deadlock _ _ _ S).
+Qed.
+
+Lemma step_done_log sc s r s' : step sc s = Done r s' -> log s' = log (top s) \/ s' = s.
+Proof.
+  unfold step. destruct (exhausted s); [intros H; inversion H; auto|].
+  intros H. left.
+  destruct (select_cases sc (top s)) as [d r0 t PM Et Hts|t F Et Hd1 Ht1|dl t T Et Hd1 Hs1|]; [| | |discriminate].
+  - unfold on_dial in H. destruct (dres d); inversion H; subst; reflexivity.
+  - unfold on_stream in H. destruct (rest (top s)) as [|[t0 [a|c]] r0]; discriminate.
+  - discriminate.
+Qed.
+
+(* While both families have an address that resolved before the attempt and is still
+   untried, consecutive attempts are of different families (whole log). *)
+Lemma alternates_while_both sc r s : sorted (items sc) ->
+  run_sc sc = (r, s) -> alt_ok (stream_addrs (items sc)) (log s) = true.
+Proof.
+  intros So H. unfold run_sc in H. destruct (fuel_suffices sc) as (r0 & s0 & E). rewrite E in H.
+  inversion H; subst; clear H.
+  apply runB_end in E as (s1 & [I J] & S); [|split; [apply inv_init|apply invS_init; assumption]].
+  apply step_done_log in S as [->| ->].
+  - apply (S_alt _ _ (invS_top _ _ I J)).
+  - apply (S_alt _ _ J).
+Qed.
+
+(* ------------------------------------------------------------ the first attempt *)
+Section First.
+Variable sc : scenario.
+Variable t0 : N.
+Variable a0 : addr.
+Variable tl : list (N * addr).
+Hypothesis Hso : sorted (items sc).
+Hypothesis Hads : stream_addrs (items sc) = (t0, a0) :: tl.
+Variable t1 : N.
+Variable a1 : addr.
+Hypothesis Hin1 : In (t1, a1) (stream_addrs (items sc)).
+Hypothesis Hpref1 : v6 a1 = pref sc.
+Hypothesis Hwithin : t1 <= t0 + RD.
+
+Definition FInv (s : st) : Prop :=
+  (started s = false ->
+     log s = [] /\ dials s = [] /\
+     (((forall b, In b (queue s) -> v6 b <> pref sc) /\
+       (queue s = [] -> timer s = None) /\ (queue s <> [] -> timer s = Some (t0 + RD)))
+      \/ ((exists b, In b (queue s) /\ v6 b = pref sc) /\ timer s = None))) /\
+  (started s = true -> exists l x, log s = l ++ [x] /\ v6 (snd x) = pref sc).
+
+Lemma FInv_init : FInv (init sc).
+Proof.
+  split; cbn; [|discriminate]. intros _. split; [reflexivity|]. split; [reflexivity|].
+  left. split; [intros b []|]. split; [reflexivity|congruence].
+Qed.
+
+Lemma FInv_top s : InvS sc s -> FInv s -> FInv (top s).
+Proof.
+  intros J F. unfold top.
+  destruct (timer s) eqn:T; [assumption|].
+  destruct (pop_family (queue s) (want6 s)) as [[[a q] w]|] eqn:P; [|assumption].
+  destruct F as [F1 F2].
+  apply pop_family_spec in P as (Pq & -> & Pw).
+  split; cbn; [discriminate|]. intros _.
+  destruct (started s) eqn:St.
+  - destruct (F2 eq_refl) as (l & x & -> & V). exists ((now s, a) :: l), x. split; [reflexivity|assumption].
+  - destruct (F1 eq_refl) as (L & D & [(Hq & Hq0 & Hq1)|((b & Hb & Vb) & _)]).
+    + exfalso. assert (queue s <> []) by (intros E; rewrite E in Pq; apply Permutation_nil in Pq; discriminate).
+      rewrite (Hq1 H) in T. discriminate.
+    + exists [], (now s, a). rewrite L. split; [reflexivity|]. cbn.
+      pose proof (S_want _ _ J) as W. rewrite L in W. rewrite <- W. apply Pw. exists b. rewrite W. auto.
+Qed.
+
+(* while nothing has been started and no preferred address is queued, the witness is still
+   in the stream *)
+Lemma witness_in_rest s : Inv sc s -> log s = [] ->
+  (forall b, In b (queue s) -> v6 b <> pref sc) -> exists it, In (t1, it) (rest s).
+Proof.
+  intros [(pre & Hs & Hp) _ _ _ _] L Hq. rewrite L in Hp. cbn in Hp.
+  pose proof Hin1 as H. rewrite Hs, stream_addrs_app in H. apply in_app_or in H as [H|H].
+  - exfalso. assert (In a1 (addrs_of pre)) by (unfold addrs_of; change a1 with (snd (t1, a1)); now apply in_map).
+    apply (Permutation_in _ Hp) in H0. exact (Hq _ H0 Hpref1).
+  - apply stream_addrs_in in H. exact H.
+Qed.
+
+Lemma FInv_select_next s s' : Inv sc s -> InvS sc s -> FInv s ->
+  (started s = false -> timer s <> None \/ queue s = []) ->
+  select sc s = Next s' -> FInv s'.
+Proof.
+  intros I J [F1 F2] TP H.
+  destruct (started s) eqn:St.
+  - (* already started: log and flag are unchanged *)
+    assert (started s' = true /\ log s' = log s) as [S' L'].
+    { destruct (select_cases sc s) as [d r t PM Et Hts|t F Et Hd1 Ht1|dl t T Et Hd1 Hs1|]; [| | |discriminate].
+      - unfold on_dial in H. destruct (dres d); inversion H; subst; cbn; auto.
+      - unfold on_stream in H. destruct (rest s) as [|[t2 [a|c]] r0]; inversion H; subst; cbn; auto.
+      - inversion H; subst; cbn; auto. }
+    split; [congruence|]. intros _. rewrite L'. auto.
+  - destruct (F1 eq_refl) as (L & D & Dis).
+    destruct Dis as [(Hq & Hq0 & Hq1)|((b & Hb & Vb) & Tn)].
+    2:{ exfalso. destruct (TP eq_refl) as [X|X]; [congruence|]. rewrite X in Hb. destruct Hb. }
+    destruct (witness_in_rest s I L Hq) as [it Hit].
+    assert (Fi : fin s = false).
+    { destruct (fin s) eqn:Fi; [|reflexivity]. destruct (I_fin _ _ I Fi) as [E _]. rewrite E in Hit. destruct Hit. }
+    assert (Hst : stime sc s <= t1).
+    { unfold stime. pose proof (S_sorted _ _ J) as So. destruct (rest s) as [|[t2 it2] r0]; [destruct Hit|].
+      cbn in So. destruct So as [Hh _]. destruct Hit as [E|Hit]; [inversion E; lia|].
+      specialize (Hh _ Hit). cbn in Hh. assumption. }
+    destruct (select_cases sc s) as [d r t PM Et Hts|t F Et Hd1 Ht1|dl t T Et Hd1 Hs1|]; [| | |discriminate].
+    + rewrite D in PM. discriminate.
+    + unfold on_stream in H. unfold stime in Et.
+      destruct (rest s) as [|[t2 [a|c]] r0] eqn:Rs; [destruct Hit| |]; inversion H; subst s'; clear H.
+      * (* an address arrives *)
+        split; cbn; rewrite St; [|discriminate]. intros _.
+        split; [assumption|]. split; [assumption|].
+        destruct (Bool.eqb (pref sc) (v6 a)) eqn:E.
+        -- right. split; [|reflexivity]. exists a. split; [apply in_or_app; right; left; reflexivity|].
+           symmetry. now apply eqb_prop.
+        -- left. split.
+           { intros b Hb. apply in_app_or in Hb as [Hb|[<-|[]]]; [auto|].
+             intros V. rewrite V, eqb_reflx in E. discriminate. }
+           split; [intros X; destruct (queue s); discriminate|]. intros _.
+           destruct (timer s) eqn:T.
+           ++ destruct (queue s) eqn:Q; [specialize (Hq0 eq_refl); discriminate|].
+              apply Hq1. discriminate.
+           ++ (* this is the first address of the stream *)
+              assert (Q : queue s = []).
+              { destruct (queue s) eqn:Q; [reflexivity|]. exfalso.
+                assert (X : a2 :: l <> []) by discriminate. specialize (Hq1 X). discriminate. }
+              destruct I as [(pre & Hs & Hp) _ _ _ _]. rewrite L, Q in Hp. cbn in Hp.
+              apply Permutation_sym, Permutation_nil in Hp. unfold addrs_of in Hp.
+              apply map_eq_nil in Hp.
+              pose proof Hads as HA. rewrite Hs, stream_addrs_app, Hp, Rs in HA. cbn in HA.
+              inversion HA; subst.
+              assert (Hn : now s <= t0) by (apply (S_fut _ _ J (t0, IAddr a0)); rewrite Rs; left; reflexivity).
+              f_equal. lia.
+      * (* a resolver error *)
+        split; cbn; rewrite St; [|discriminate]. intros _.
+        split; [assumption|]. split; [assumption|]. left. auto.
+    + (* the resolution-delay timer cannot fire before the witness is delivered *)
+      exfalso. specialize (Hs1 Fi).
+      assert (dl = t0 + RD).
+      { destruct (queue s) eqn:Q; [rewrite (Hq0 eq_refl) in T; discriminate|].
+        rewrite Hq1 in T; [|discriminate]. congruence. }
+      lia.
+Qed.
+
+Lemma FInv_step_next s s' : InvB sc s -> FInv s -> step sc s = Next s' -> FInv s'.
+Proof.
+  intros [I J] F. unfold step. destruct (exhausted s); [discriminate|]. intros H.
+  eapply FInv_select_next; [apply inv_top; eassumption|apply invS_top; eassumption|apply FInv_top; assumption| |eassumption].
+  intros _. apply top_post.
+Qed.
+
+Lemma runF_end : forall f s r s', InvB sc s -> FInv s -> run f sc s = Some (r, s') ->
+  exists s0, InvB sc s0 /\ FInv s0 /\ step sc s0 = Done r s'.
+Proof.
+  induction f as [|f IH]; intros s r s' I F H; [discriminate|]. cbn in H.
+  destruct (step sc s) as [r0 s0|s0|s0] eqn:S.
+  - inversion H; subst. eauto.
+  - eapply IH; [| |eassumption]; [eapply invB_step_next|eapply FInv_step_next]; eassumption.
+  - exfalso. exact (no_deadlock _ _ _ S).
+Qed.
+
+Lemma first_attempt_preferred_sec r s l x :
+  run_sc sc = (r, s) -> log s = l ++ [x] -> v6 (snd x) = pref sc.
+Proof.
+  intros H HL. unfold run_sc in H. destruct (fuel_suffices sc) as (r0 & s0 & E). rewrite E in H.
+  inversion H; subst; clear H.
+  apply runF_end in E as (s1 & [I J] & F & S);
+    [|split; [apply inv_init|apply invS_init; assumption]|apply FInv_init].
+  assert (exists u, FInv u /\ log s = log u) as (u & [G1 G2] & L).
+  { apply step_done_log in S as [L| ->]; [|eauto]. exists (top s1). split; [|assumption].
+    apply FInv_top; assumption. }
+  rewrite L in HL. destruct (started u) eqn:St.
+  - destruct (G2 eq_refl) as (l' & x' & L' & V). rewrite L' in HL.
+    apply app_inj_tail in HL as [_ <-]. assumption.
+  - destruct (G1 eq_refl) as (L0 & _). rewrite L0 in HL. destruct l; discriminate.
+Qed.
+End First.
+
+(* ------------------------------------------------------------ the stream of resolve_host_all is sorted *)
+Lemma sorted_const_app t l r :
+  (forall x, In x l -> fst x = t) -> (forall y, In y r -> t <= fst y) -> sorted r -> sorted (l ++ r).
+Proof.
+  induction l as [|x l IH]; cbn; intros Hl Hr Sr; [assumption|]. split.
+  - intros y Hy. rewrite (Hl x (or_introl eq_refl)). apply in_app_or in Hy as [Hy|Hy].
+    + rewrite (Hl y (or_intror Hy)). lia.
+    + auto.
+  - apply IH; auto.
+Qed.
+
+Lemma items_of_time l x : In x (items_of l) -> fst x = lt l.
+Proof.
+  unfold items_of. destruct (lr l); [|intros []]. intros H. apply in_map_iff in H as (a & <- & _). reflexivity.
+Qed.
+
+Lemma resolve_sorted l4 l6 : sorted (fst (resolve l4 l6)).
+Proof.
+  unfold resolve. cbv zeta. cbn [fst].
+  set (a := eff l4). set (b := eff l6). set (te := N.max (lt a) (lt b)).
+  set (tail := match lr a, lr b with
+               | None, None => [(te, IErr 11)]
+               | _, _ => match (if lt a <=? lt b then items_of a ++ items_of b else items_of b ++ items_of a) with
+                         | [] => [(te, IErr 10)] | _ :: _ => [] end
+               end).
+  assert (Ht : forall y, In y tail -> fst y = te).
+  { subst tail. intros y. destruct (lr a), (lr b);
+      try (destruct (if lt a <=? lt b then _ else _)); cbn; intros [<-|[]] || intros []; reflexivity. }
+  assert (St : sorted tail).
+  { subst tail. destruct (lr a), (lr b); try (destruct (if lt a <=? lt b then _ else _)); cbn; auto;
+      split; auto; intros y []. }
+  fold tail.
+  destruct (N.leb_spec (lt a) (lt b)).
+  - rewrite <- app_assoc. apply (sorted_const_app (lt a)); [apply items_of_time| |].
+    + intros y Hy. apply in_app_or in Hy as [Hy|Hy]; [rewrite (items_of_time _ _ Hy); lia|rewrite (Ht _ Hy); lia].
+    + apply (sorted_const_app (lt b)); [apply items_of_time| |assumption].
+      intros y Hy. rewrite (Ht _ Hy). lia.
+  - rewrite <- app_assoc. apply (sorted_const_app (lt b)); [apply items_of_time| |].
+    + intros y Hy. apply in_app_or in Hy as [Hy|Hy]; [rewrite (items_of_time _ _ Hy); lia|rewrite (Ht _ Hy); lia].
+    + apply (sorted_const_app (lt a)); [apply items_of_time| |assumption].
+      intros y Hy. rewrite (Ht _ Hy). lia.
+Qed.
+
+Lemma sc_of_sorted i : sorted (items (sc_of i)).
+Proof.
+  unfold sc_of. pose proof (resolve_sorted (look4 i) (look6 i)) as H.
+  destruct (resolve (look4 i) (look6 i)) as [s te]. exact H.
+Qed.
+
+(* ------------------------------------------------------------ the monitor on the model's output *)
+Lemma result_ok_model sc r s : run_sc sc = (r, s) ->
+  result_ok (stream_addrs (items sc)) (rev (log s)) (tend sc) r (now s) = true.
+Proof.
+  intros H. destruct r as [a|c|].
+  - apply returns_first_success in H as (t & Hin & Sa & De & Mn). cbn.
+    apply andb_true_intro. split.
+    + apply existsb_exists. exists (t, a). split; [now apply -> in_rev|]. cbn.
+      rewrite addr_eqb_refl, Sa, De, N.eqb_refl. reflexivity.
+    + apply forallb_forall. intros [t' a'] Hx. apply in_rev in Hx. cbn.
+      destruct (succ a') eqn:S'; [|reflexivity]. cbn. apply N.leb_le. eauto.
+  - pose proof (all_attempted_or_won _ _ _ H) as P.
+    apply fails_only_when_exhausted in H as (_ & _ & Te & _ & _ & Hl). cbn.
+    repeat (apply andb_true_intro; split).
+    + apply forallb_forall. intros x Hx. apply existsb_exists.
+      assert (In (snd x) (map snd (log s))).
+      { apply (Permutation_in _ P). unfold addrs_of. now apply in_map. }
+      apply in_map_iff in H as (y & E & Hy). exists y. split; [now apply -> in_rev|].
+      rewrite E. apply addr_eqb_refl.
+    + apply Nat.eqb_eq. rewrite rev_length. apply Permutation_length in P.
+      unfold addrs_of in P. rewrite !map_length in P. auto.
+    + apply forallb_forall. intros [t' a'] Hx. apply in_rev in Hx. cbn.
+      destruct (Hl _ _ Hx) as [Sf L]. rewrite Sf. cbn. now apply N.leb_le.
+    + now apply N.leb_le.
+  - exfalso. exact (run_sc_not_panic _ _ H).
+Qed.
+
+Lemma first_ok_model sc r s : sorted (items sc) -> run_sc sc = (r, s) ->
+  first_ok (pref sc) (stream_addrs (items sc)) (rev (log s)) = true.
+Proof.
+  intros So H. unfold first_ok.
+  destruct (stream_addrs (items sc)) as [|[t0 a0] tl] eqn:A; [reflexivity|].
+  destruct (existsb _ _) eqn:E; [|reflexivity].
+  apply existsb_exists in E as ([t1 a1] & Hin & C). cbn in C. apply andb_prop in C as [C1 C2].
+  apply eqb_prop in C1. apply N.leb_le in C2.
+  destruct (rev (log s)) as [|[t a] l] eqn:R; [reflexivity|].
+  assert (L : log s = rev l ++ [(t, a)]).
+  { rewrite <- (rev_involutive (log s)), R. reflexivity. }
+  rewrite <- A in Hin.
+  pose proof (first_attempt_preferred_sec sc t0 a0 tl So A t1 a1 Hin C1 C2 r s _ _ H L) as V.
+  cbn in V. rewrite V. apply eqb_reflx.
+Qed.
+
+Lemma monitor_sc sc r s : sorted (items sc) -> run_sc sc = (r, s) ->
+  result_ok (stream_addrs (items sc)) (rev (log s)) (tend sc) r (now s)
+  && first_ok (pref sc) (stream_addrs (items sc)) (rev (log s))
+  && alt_ok (stream_addrs (items sc)) (rev (rev (log s))) = true.
+Proof.
+  intros So H. rewrite (result_ok_model _ _ _ H), (first_ok_model _ _ _ So H), rev_involutive.
+  rewrite (alternates_while_both _ _ _ So H). reflexivity.
+Qed.
+
+Lemma model_monitor i : monitor i (model i) = true.
+Proof.
+  unfold monitor, model, out_of. destruct (run_sc (sc_of i)) as [r s] eqn:H. cbn [fst snd].
+  apply monitor_sc; [apply sc_of_sorted|assumption].
+Qed.
+
+(* ------------------------------------------------------------ readable forms *)
+Lemma alt_ok_spec ads rl : alt_ok ads rl = true ->
+  forall l1 x y l2, rl = l1 ++ x :: y :: l2 ->
+    untried ads (y :: l2) (fst x) true = true -> untried ads (y :: l2) (fst x) false = true ->
+    v6 (snd x) <> v6 (snd y).
+Proof.
+  induction rl as [|z rl IH]; intros H l1 x y l2 E U1 U2; [destruct l1; discriminate|].
+  destruct l1 as [|w l1]; cbn in E; inversion E; subst; clear E.
+  - rewrite alt_ok_cons2, U1, U2 in H. cbn in H. apply andb_prop in H as [H _].
+    intros V. rewrite V, eqb_reflx in H. discriminate.
+  - apply (IH) with (l1 := l1) (l2 := l2); auto.
+    destruct (l1 ++ x :: y :: l2) eqn:X; [destruct l1; discriminate|].
+    rewrite alt_ok_cons2 in H. apply andb_prop in H as [_ H]. exact H.
+Qed.
+
+Lemma alternates_while_both_prop sc r s : sorted (items sc) -> run_sc sc = (r, s) ->
+  forall l1 x y l2, log s = l1 ++ x :: y :: l2 ->
+    untried (stream_addrs (items sc)) (y :: l2) (fst x) true = true ->
+    untried (stream_addrs (items sc)) (y :: l2) (fst x) false = true ->
+    v6 (snd x) <> v6 (snd y).
+Proof. intros So H. apply alt_ok_spec. eapply alternates_while_both; eassumption. Qed.
+
+Lemma outcome_eqb_eq x y : outcome_eqb x y = true -> x = y.
+Proof.
+  destruct x, y; cbn; try discriminate; intros H; try apply N.eqb_eq in H; congruence.
+Qed.
+Lemma addr_eqb_eq a b : addr_eqb a b = true -> a = b.
+Proof.
+  unfold addr_eqb. intros H. apply andb_prop in H as [H H3]. apply andb_prop in H as [H1 H2].
+  apply eqb_prop in H1. apply N.eqb_eq in H2. apply outcome_eqb_eq in H3.
+  destruct a, b; cbn in *; congruence.
+Qed.
+
+(* What the result part of the monitor says about an observed output. *)
+Definition result_spec (ads lg : list (N * addr)) (te : N) (r : res addr) (e : N) : Prop :=
+  match r with
+  | Ok a => (exists t, In (t, a) lg /\ succ a = true /\ dend_at t a = e) /\
+            (forall t' a', In (t', a') lg -> succ a' = true -> e <= dend_at t' a')
+  | Err _ => (forall x, In x ads -> exists t, In (t, snd x) lg) /\ length lg = length ads /\
+             (forall t a, In (t, a) lg -> succ a = false /\ dend_at t a <= e) /\ te <= e
+  | Panic => False
+  end.
+
+Lemma result_ok_spec ads lg te r e : result_ok ads lg te r e = true <-> result_spec ads lg te r e.
+Proof.
+  destruct r as [a|c|]; cbn; [| |split; [discriminate|intros []]].
+  - rewrite andb_true_iff, existsb_exists, forallb_forall. split.
+    + intros [([t b] & Hin & C) F]. cbn in C.
+      apply andb_prop in C as [C C3]. apply andb_prop in C as [C1 C2].
+      apply addr_eqb_eq in C1. subst b. apply N.eqb_eq in C3. split; [eauto|].
+      intros t' a' Hi S'. specialize (F _ Hi). cbn in F. rewrite S' in F. cbn in F. now apply N.leb_le.
+    + intros [(t & Hin & S & D) F]. split.
+      * exists (t, a). split; [assumption|]. cbn. rewrite addr_eqb_refl, S, D, N.eqb_refl. reflexivity.
+      * intros [t' a'] Hi. cbn. destruct (succ a') eqn:S'; [|reflexivity]. cbn. apply N.leb_le. eauto.
+  - rewrite !andb_true_iff, !forallb_forall, Nat.eqb_eq, N.leb_le. split.
+    + intros [[[A L] F] T]. repeat split; auto.
+      * intros x Hx. specialize (A _ Hx). apply existsb_exists in A as ([t b] & Hi & C). cbn in C.
+        apply addr_eqb_eq in C. rewrite C. eauto.
+      * specialize (F _ H). cbn in F. apply andb_prop in F as [F _]. now destruct (succ a).
+      * specialize (F _ H). cbn in F. apply andb_prop in F as [_ F]. now apply N.leb_le.
+    + intros (A & L & F & T). repeat split; auto.
+      * intros x Hx. destruct (A _ Hx) as [t Hi]. apply existsb_exists. exists (t, snd x).
+        split; [assumption|]. apply addr_eqb_refl.
+      * intros [t a] Hi. destruct (F _ _ Hi) as [S D]. cbn. rewrite S. cbn. now apply N.leb_le.
+Qed.
+
+Lemma monitor_result_spec i lg r e : monitor i (lg, r, e) = true ->
+  result_spec (stream_addrs (items (sc_of i))) lg (tend (sc_of i)) r e.
+Proof.
+  unfold monitor. intros H. apply andb_prop in H as [H _]. apply andb_prop in H as [H _].
+  now apply result_ok_spec.
+Qed.
+
+(* ------------------------------------------------------------ witnesses, non-vacuity *)
+(* The flag flip of the unfixed pop_family (`*next_is_v6 = !*next_is_v6`) repeats a family
+   after a fall-back although the other family is queued. *)
+Definition pop_family_old (q : list addr) (w : bool) : option (addr * list addr * bool) :=
+  match q with
+  | [] => None
+  | a0 :: q0 =>
+      match find_fam w q with
+      | Some (a, r) => Some (a, r, negb w)
+      | None => Some (a0, q0, negb w)
+      end
+  end.
+
+Example pop_family_old_repeats_family :
+  let a := mkAddr true 101 OHang in let b := mkAddr true 102 OHang in let c := mkAddr false 1 OHang in
+  pop_family_old [a; b] false = Some (a, [b], true) /\
+  pop_family_old [b; c] true = Some (b, [c], false) /\
+  pop_family [a; b] false = Some (a, [b], false) /\
+  pop_family [b; c] false = Some (c, [b], true).
+Proof. repeat split. Qed.
+
+(* the corpus witness `0 100:h 0:h,h` on the fixed model: v6, v4, v6 *)
+Example witness_alternates :
+  model (mkIn false (lk 100 (Some [mkAddr false 1 OHang]))
+                    (lk 0 (Some [mkAddr true 101 OHang; mkAddr true 102 OHang])))
+  = ([(RD, mkAddr true 101 OHang); (RD + CAD, mkAddr false 1 OHang);
+      (RD + 2 * CAD, mkAddr true 102 OHang)], Err 3, RD + 2 * CAD + DT).
+Proof. vm_compute. reflexivity. Qed.
+
+(* the bound 3 * #items + 3 is attained; the smaller bound 2 * #items + 3 of the first
+   design is not enough *)
+Definition sc_slow : scenario := mkSc false [(0, IAddr (mkAddr true 101 OHang))] (10000 * MS).
+
+Example fuel_tight : run (3 * 1 + 2) sc_slow (init sc_slow) = None /\
+                     exists s, run (3 * 1 + 3) sc_slow (init sc_slow) = Some (Err 3, s).
+Proof. split; [vm_compute; reflexivity|]. eexists. vm_compute. reflexivity. Qed.
+
+Lemma fuel_2n_plus_3_refuted :
+  exists sc, run (2 * length (items sc) + 3) sc (init sc) = None.
+Proof. exists sc_slow. vm_compute. reflexivity. Qed.
+
+(* the hypotheses of first_attempt_preferred are satisfiable, at the boundary t1 = t0 + RD *)
+Example first_pref_nonvacuous :
+  let sc := mkSc true [(0, IAddr (mkAddr false 1 OHang)); (RD, IAddr (mkAddr true 101 (ok 1)))] RD in
+  sorted (items sc) /\ fst (run_sc sc) = Ok (mkAddr true 101 (ok 1)) /\
+  rev (log (snd (run_sc sc))) = [(RD, mkAddr true 101 (ok 1))].
+Proof. split; [cbn; repeat split; intros y Hy; repeat (destruct Hy as [<-|Hy]; [cbn; lia|]); destruct Hy|]. split; vm_compute; reflexivity. Qed.
